@@ -292,6 +292,10 @@ class _Run(object):
             if p.arg not in self.args and d is not None:
                 self.raises = []
                 init[p.arg] = self.ev(d, {}, g.entry)
+        if a.kwarg is not None:
+            init[a.kwarg.arg] = self.args.get("**", T("dict"))       # (empty when the call site gives no extra keyword)
+        if a.vararg is not None:
+            init[a.vararg.arg] = self.args.get("*", T("tuple"))
         init["$pending"] = frozenset()
         init["$alias"] = {}
         init["$corr"] = {}
@@ -409,7 +413,13 @@ class _Run(object):
             for d in node.defs:
                 post[d] = ANY
                 self.drop_alias(post, d)
-            if isinstance(node.ast.target, ast.Name):
+            itv0 = None
+            for key, v in state.items():
+                if key.startswith("$iter:") and g.nodes[int(key[6:])].ast is node.ast.iter:
+                    itv0 = v
+            if itv0 is not None and itv0.truthy is False and itv0.types <= CONTAINERS and itv0.types:
+                post = None          # a container known to be empty: the body is never entered
+            if post is not None and isinstance(node.ast.target, ast.Name):
                 itv = None
                 # element type of the iterable
                 for key, v in state.items():
@@ -418,7 +428,7 @@ class _Run(object):
                 post[node.ast.target.id] = JSONV if (itv is not None and itv.types <= JSON | frozenset(["obj"])) else ANY
             # iteration over a module-level constant (tuple of scalars / of equal-length tuples): element types are known
             try:
-                cv = self.prog.const(self.fi.module, node.ast.iter) if isinstance(node.ast.iter, (ast.Name, ast.Attribute, ast.Tuple)) else None
+                cv = self.prog.const(self.fi.module, node.ast.iter) if post is not None and isinstance(node.ast.iter, (ast.Name, ast.Attribute, ast.Tuple)) else None
             except AnalysisError:
                 cv = None
 
@@ -533,6 +543,8 @@ class _Run(object):
             del st[kk]
         if st.get("$either"):
             st["$either"] = tuple(kv for kv in st["$either"] if kv[0] != name)
+        if st.get("$haskey"):
+            st["$haskey"] = frozenset(p_ for p_ in st["$haskey"] if name not in p_)
         al = st.get("$alias") or {}
         if al:
             st["$alias"] = dict((k, v) for k, v in al.items() if k != name and name not in v[1])
@@ -723,6 +735,8 @@ class _Run(object):
             elif cur is not None and e.func.attr in ("pop", "clear", "popitem") and "dict" in cur.types:
                 st = dict(st)
                 st[name] = AV(cur.types, frozenset(), False, cur.cls)
+                if st.get("$haskey"):
+                    st["$haskey"] = frozenset(p_ for p_ in st["$haskey"] if p_[0] != name)
         return st
 
     # ---- narrowing ---------------------------------------------------------------------------------
@@ -863,6 +877,17 @@ class _Run(object):
                         st2[left.func.value.id] = AV(v.types, v.keys | frozenset([left.args[0].value]), True, v.cls)
                         return st2
                 return st
+            if isinstance(op, (ast.In, ast.NotIn)) and isinstance(left, ast.Name) and isinstance(right, ast.Name):
+                if (pol if isinstance(op, ast.In) else not pol):
+                    v_ = st.get(right.id, ANY)
+                    nv_ = v_.only(CONTAINERS | frozenset(["obj"]))
+                    if not nv_.types:
+                        return None
+                    st2 = dict(st)
+                    st2[right.id] = AV(nv_.types, nv_.keys, True, nv_.cls)
+                    st2["$haskey"] = frozenset(st.get("$haskey") or ()) | frozenset([(right.id, left.id)])
+                    return st2
+                return st
             if isinstance(op, (ast.In, ast.NotIn)) and isinstance(left, ast.Constant) and isinstance(right, ast.Name):
                 v = st.get(right.id, ANY)
                 present = pol if isinstance(op, ast.In) else not pol
@@ -912,6 +937,10 @@ class _Run(object):
         return st
 
     def truth_narrow(self, v, pol):
+        if pol and v.truthy is False:
+            return None              # known falsy (an empty container established earlier): the true outcome is infeasible
+        if not pol and v.truthy is True and v.types and v.types <= SIZED:
+            return None
         if pol:
             nv = v.without(["none"])
             if not nv.types:
@@ -972,6 +1001,8 @@ class _Run(object):
         return m(e, st, node)
 
     def ev_Constant(self, e, st, node):
+        if isinstance(e.value, bool):
+            return AV(["bool"], truthy=e.value)        # (a flag parameter left at its literal default decides its tests)
         return T(_tag_of(e.value))
 
     def ev_Name(self, e, st, node):
@@ -1074,6 +1105,9 @@ class _Run(object):
             self.raise_("TypeError", node, "subscript on %s" % "|".join(sorted(bad)))
         if "dict" in base.types:
             known = isinstance(e.slice, ast.Constant) and e.slice.value in base.keys
+            if not known and isinstance(e.slice, ast.Name) and isinstance(e.value, ast.Name) and \
+                    (e.value.id, e.slice.id) in (st.get("$haskey") or ()):
+                known = True        # `k in d` held on this path and neither name was rebound since
             if not known:
                 self.raise_("KeyError", node, "key %s not known present" % dump(e.slice))
             if idx.types & UNHASHABLE:
@@ -1232,6 +1266,9 @@ class _Run(object):
         cur = dict(st)
         for gen in e.generators:
             it = self.ev(gen.iter, cur, node)
+            if it.truthy is False and it.types and it.types <= CONTAINERS:
+                # a container known to be empty: nothing is evaluated per element, the result is empty
+                return AV(result.types, cls=result.cls, truthy=False)
             bad = it.types - CONTAINERS - frozenset(["obj"])
             if bad:
                 self.raise_("TypeError", node, "iteration over %s" % "|".join(sorted(bad)))
@@ -1383,6 +1420,8 @@ class _Run(object):
                 if not a.types <= NUM:
                     self.raise_("TypeError", node, "%s() of %r" % (name, a))
             return T("int", "float") if name != "range" else AV(["obj"], cls="generator")
+        if name == "vars" and len(argv) == 1 and a0 is not None and a0.types <= frozenset(["obj"]) and a0.cls in self.prog_class_names():
+            return T("dict")         # the instance dictionary of an object of a package class (none of them is slotted)
         if name == "getattr":
             if len(argv) < 3:
                 self.raise_("AttributeError", node, "getattr without default")
@@ -1453,7 +1492,7 @@ class _Run(object):
                 d = argv[1] if len(argv) > 1 else NONE
                 return JSONV.join(d) if base.cls is None else ANY
             if attr in ("keys", "values", "items"):
-                return AV(["view"], nonempty=base.nonempty)
+                return AV(["view"], nonempty=base.nonempty, truthy=False if base.truthy is False and base.types <= frozenset(["dict"]) else None)
             if attr == "copy":
                 return base
             if attr == "update":
@@ -1543,6 +1582,10 @@ class _Run(object):
                 if not v.types <= NUM | frozenset(["str"]):
                     self.raise_("TypeError", node, "format spec %r applied to %r" % (spec, v))
 
+    def prog_class_names(self):
+        return set(ci.name for ci in self.prog.classes.values() if not any(isinstance(st_, ast.Assign) and any(
+            isinstance(t_, ast.Name) and t_.id == "__slots__" for t_ in st_.targets) for st_ in ci.node.body))
+
     def call_package(self, callee, e, argv, kwv, st, node, bound=False, selfv=None):
         params = list(callee.params)
         args = {}
@@ -1574,6 +1617,13 @@ class _Run(object):
                 args[k.arg] = kwv[k.arg]
                 if isinstance(k.value, ast.Name):
                     amap[k.arg] = k.value.id
+        ca_ = callee.node.args
+        if not has_star:
+            if ca_.kwarg is not None and all(k.arg in callee.params for k in e.keywords):
+                args["**"] = AV(["dict"], truthy=False)           # no extra keyword: the **kwargs dictionary is empty
+            n_pos = len(params) if not explicit_self else len(params) - 1
+            if ca_.vararg is not None and len(e.args) <= n_pos:
+                args["*"] = AV(["tuple"], truthy=False)
         self._heap_call = True
         self.an.op(self.fi, node, "package call %s" % callee.fq)
         summ = self.an.analyze(callee, args)
